@@ -120,13 +120,23 @@ func c08EnumLeaves(t reflect.Type, path, jsonName string, mk func(root reflect.V
 	case reflect.Interface: // one-of
 		for _, at := range c08OneofAlts[t] {
 			at := at
-			c08EnumLeaves(at, path+"<"+at.Elem().Name()+">", jsonName, func(root reflect.Value) reflect.Value {
+			mkAlt := func(root reflect.Value) reflect.Value {
 				iv := mk(root)
 				if iv.IsNil() || iv.Elem().Type() != at {
 					iv.Set(reflect.New(at.Elem()))
+					// a message alternative always holds a message (SetEmptyGauge, SetEmptyMap, ... allocate it)
+					for i := 0; i < at.Elem().NumField(); i++ {
+						if f := iv.Elem().Elem().Field(i); f.Kind() == reflect.Ptr && f.Type().Elem().Kind() == reflect.Struct && f.CanSet() {
+							f.Set(reflect.New(f.Type().Elem()))
+						}
+					}
 				}
 				return iv.Elem()
-			}, depth+1, out)
+			}
+			// the alternative PRESENT with its zero content (explicit presence: an optional field that is set to 0, an empty
+			// message alternative) - different from the one-of being absent
+			*out = append(*out, c08Leaf{path + "<" + at.Elem().Name() + ">:present-with-zero-content", func(root, _ reflect.Value) { mkAlt(root) }, c08PresentT, ""})
+			c08EnumLeaves(at, path+"<"+at.Elem().Name()+">", jsonName, mkAlt, depth+1, out)
 		}
 	default:
 		*out = append(*out, c08Leaf{path, func(root, val reflect.Value) { mk(root).Set(val) }, t, jsonName})
@@ -169,8 +179,15 @@ func c08IsEnum(t reflect.Type) bool {
 	return ok
 }
 
+type c08Present struct{}
+
+var c08PresentT = reflect.TypeOf(c08Present{})
+
 func c08Boundary(t reflect.Type) []reflect.Value {
 	var vs []reflect.Value
+	if t == c08PresentT {
+		return []reflect.Value{reflect.ValueOf(c08Present{})}
+	}
 	add := func(x any) { vs = append(vs, reflect.ValueOf(x).Convert(t)) }
 	switch t.Kind() {
 	case reflect.Bool:
@@ -252,6 +269,22 @@ func c08Boundary(t reflect.Type) []reflect.Value {
 }
 
 // canonical (API-level) equality: nil == empty container, NaN == NaN, -0 == +0, nil pointer == pointer to zero message
+// c08RelaxEmptyBytes / c08Cause: root-cause classification of a difference that c08Eq found. A pcommon Value of type Bytes
+// that holds no bytes (Value.SetEmptyBytes(), FromRaw([]byte{})) is written as an ABSENT one-of by both marshalers (the
+// generated code skips a nil/empty bytes field), so it decodes as a Value of type Empty - a recorded finding
+// (known_findings.json). A difference that disappears when exactly that is tolerated is attributed to it; any other
+// difference keeps its own signature.
+var c08RelaxEmptyBytes bool
+
+func c08Cause(a, b reflect.Value) string {
+	c08RelaxEmptyBytes = true
+	defer func() { c08RelaxEmptyBytes = false }()
+	if c08Eq(a, b) {
+		return "empty-bytes-value-is-encoded-as-an-absent-value"
+	}
+	return ""
+}
+
 func c08Eq(a, b reflect.Value) bool {
 	if a.Kind() != b.Kind() {
 		return false
@@ -269,6 +302,16 @@ func c08Eq(a, b reflect.Value) bool {
 		}
 		return c08Eq(a.Elem(), b.Elem())
 	case reflect.Interface:
+		if c08RelaxEmptyBytes && a.IsNil() != b.IsNil() {
+			// classification only (see c08Cause): a bytes alternative with no bytes on one side, nothing on the other
+			x := a
+			if a.IsNil() {
+				x = b
+			}
+			if e := x.Elem(); e.Kind() == reflect.Ptr && !e.IsNil() && strings.HasSuffix(e.Type().Elem().Name(), "_BytesValue") && e.Elem().NumField() == 1 && e.Elem().Field(0).Len() == 0 {
+				return true
+			}
+		}
 		if a.IsNil() || b.IsNil() {
 			return a.IsNil() == b.IsNil()
 		}
@@ -370,6 +413,9 @@ func c08CheckPayload(c *c08Codec, root reflect.Value, leafs []c08Leaf, vals []re
 		return "proto-unmarshal-error:" + c.Name + ":" + seg, desc + err.Error()
 	}
 	if !c08Eq(reflect.ValueOf(c.Orig(back)), reflect.ValueOf(c.Orig(p))) {
+		if cause := c08Cause(reflect.ValueOf(c.Orig(back)), reflect.ValueOf(c.Orig(p))); cause != "" {
+			return "proto-roundtrip-differs:" + cause, desc
+		}
 		return "proto-roundtrip-differs:" + c.Name + ":" + seg, desc
 	}
 	// the legacy wire form of the same payload (what an old sender puts on the wire: scope_spans / scope_logs /
@@ -401,6 +447,9 @@ func c08CheckPayload(c *c08Codec, root reflect.Value, leafs []c08Leaf, vals []re
 		return "json-unmarshal-error:" + c.Name + ":" + seg, desc + c08Trunc(err.Error()) + " json=" + c08Trunc(string(js))
 	}
 	if !c08Eq(reflect.ValueOf(c.Orig(jback)), reflect.ValueOf(c.Orig(p))) {
+		if cause := c08Cause(reflect.ValueOf(c.Orig(jback)), reflect.ValueOf(c.Orig(p))); cause != "" {
+			return "json-roundtrip-differs:" + cause, desc + " json=" + c08Trunc(string(js))
+		}
 		return "json-roundtrip-differs:" + c.Name + ":" + seg, desc + " json=" + c08Trunc(string(js))
 	}
 	pb2, err := c.MarshalProto(jback)
